@@ -39,6 +39,19 @@ pub fn check_pos(ctx: &mut Ctx, mp: &MPos, b: &Board) {
     if text != want {
         ctx.violation("independent_writer_disagrees", &case, &format!("library {:?} model {:?}", text, want));
     }
+    // formatting must depend on the board formatted, not on what was formatted before it: same
+    // squares/side/rights/mark with other counters, back to back
+    let mut mp2 = mp.clone();
+    mp2.halfmove = mp.halfmove.wrapping_add(1 + (ctx.cases % 7) as u16);
+    mp2.fullmove = mp.fullmove.wrapping_add(1 + (ctx.cases % 5) as u16);
+    if let Ok(b2) = crate::conv::to_board(&mp2) {
+        ctx.eval(3);
+        if let Some((t1, t2, t3)) = ctx.guard("as_fen_sequence", &case, || (b.as_fen(), b2.as_fen(), b.as_fen())) {
+            if t1 != text || t3 != text || t2 != mfen::to_fen(&mp2) {
+                ctx.violation("formatting_depends_on_earlier_calls", &case, &format!("{:?} / {:?} / {:?}", t1, t2, t3));
+            }
+        }
+    }
     // Display and as_fen agree; RawBoard writer agrees
     if b.to_string() != text || b.raw().as_fen() != text {
         ctx.violation("writers_disagree", &case, "Board::to_string / RawBoard::as_fen differ from Board::as_fen");
